@@ -101,7 +101,9 @@ def make_case(tier, seed, index):
                 # date, or all zeroes (an inverter that is starting up)
                 "clock": rnd.choice([None, "valid", "valid", "zero"]),
                 # an object that is used as constructed, without read_device_info() (model-specific tables not applied)
-                "no_info": rnd.random() < 0.12}
+                "no_info": rnd.random() < 0.12,
+                # a lossy path to this inverter: every n-th transmission to it gets no answer (retransmitted once)
+                "lose": rnd.choice([None, None, None, 3, 4, 7])}
     if index % 5 == 1:
         ka = kb = rnd.choice(["DT", "DT1", "DTtcp", "ET205", "ET205tcp"])
         if rnd.random() < 0.5:
@@ -306,13 +308,16 @@ def execute(arg):
     exc_next = {}
 
     frag = {hosts[s]: case[s].get("frag") for s in sides}
+    lose = {hosts[s]: case[s].get("lose") for s in sides}
     nsent = {}
 
     def client_send(trp, data):
         host = trp.remote[0]
         nsent[host] = nsent.get(host, 0) + 1
         d = lat.get(host, 0.001)
-        if exc_next.pop(host, None):
+        if lose.get(host) and nsent[host] % lose[host] == 0:
+            world.net.default_fault = {"k": "drop"}
+        elif exc_next.pop(host, None):
             world.net.default_fault = {"k": "exc", "code": 6, "d": d}
         elif frag.get(host) and nsent[host] % 2 == 0 and _is_read(data, trp.kind):
             # this peer's answers arrive in two pieces (every other one), far enough apart for the other object's
